@@ -14,6 +14,7 @@ import (
 
 	"verif/checker/internal/flow"
 	"verif/checker/internal/load"
+	"verif/checker/internal/eval"
 	"verif/checker/internal/ref"
 )
 
@@ -136,6 +137,8 @@ func runC03(c *Ctx) {
 	c.r0321(pk, fd)
 	c.r0322(pk, fd)
 	c.r0323(pk, fd)
+	c.r0325(pk)
+	c.r0326(pk, fd)
 	// an attribute wrongly marked boolean loses its value: the table check of C17, restricted to the attribute traits
 	// an attribute value that holds code decodes to the same value only if the code was minified as the browser reads it
 	c.alsoUnder(map[string]string{"R11.9": "R03.16"}, nil, func() { c.r119() })
@@ -1810,4 +1813,199 @@ func (c *Ctx) r0323(pk *packages.Package, fd *ast.FuncDecl) {
 		return true
 	})
 	c.R.Floor(rule, "verdicts on a colgroup end tag", n, 1)
+}
+
+// R03.25: a reference to a character that the parser reads differently when it stands literally stays a reference.
+func (c *Ctx) r0325(pk *packages.Package) {
+	const rule = "R03.25"
+	c.R.Rule(rule, "HTML §13.2.3.5 normalises newlines in the input stream: a literal U+000D becomes U+000A, whereas the character reference `&#13;` gives U+000D. parse.ReplaceEntities and parse.ReplaceMultipleWhitespaceAndEntities decode numeric references to the byte and write it literally unless their third argument, the reverse map, has an entry for it. Every call of the two functions in package html hands over a reverse map (a package-level map literal, evaluated statically) with an entry for every byte of ref.HTMLLiteralReadDifferently")
+	info := pk.TypesInfo
+	n := 0
+	for _, f := range pk.Syntax {
+		for _, d := range f.Decls {
+			fd, ok := d.(*ast.FuncDecl)
+			if !ok || fd.Body == nil {
+				continue
+			}
+			for _, call := range findCalls(info, fd.Body, true, load.ParseMod+".ReplaceEntities", load.ParseMod+".ReplaceMultipleWhitespaceAndEntities") {
+				if len(call.Args) != 3 {
+					continue
+				}
+				n++
+				construct := fmt.Sprintf("html.%s/%s(%s, …)#%d hands over a reverse map for the bytes the parser normalises", load.FuncName(fd), calleeShort(info, call), nospace(str(call.Args[0])), n)
+				id, _ := ast.Unparen(call.Args[2]).(*ast.Ident)
+				if id == nil || isNilExpr(call.Args[2]) {
+					c.R.Bad(rule, construct, c.pos(call), "no reverse map ("+str(call.Args[2])+"): `&#13;` is written as a literal carriage return, which the parser turns into a line feed — `<p title=\"a&#13;b\">` has the value a, U+000D, b before and a, U+000A, b after")
+					continue
+				}
+				v, _, err := c.Ev.PackageVar(pk, id.Name)
+				m, isMap := v.(*eval.Map)
+				if err != nil || !isMap {
+					c.R.Unres(rule, construct, c.pos(call), "the reverse map "+id.Name+" cannot be evaluated statically")
+					continue
+				}
+				var missing []string
+				for _, b := range ref.HTMLLiteralReadDifferently {
+					has := false
+					for _, e := range m.Entries {
+						if k, ok := e.Key.(int64); ok && k == int64(b) {
+							has = true
+						}
+					}
+					if !has {
+						missing = append(missing, fmt.Sprintf("%q", rune(b)))
+					}
+				}
+				c.R.Check(len(missing) == 0, rule, construct, c.pos(call), "html."+id.Name+" has an entry for every such byte",
+					"html."+id.Name+" has no entry for "+strings.Join(missing, ", ")+": `&#13;` is written as a literal carriage return, which the parser turns into a line feed — `<p>a&#13;b` has the text a, U+000D, b before and a, U+000A, b after")
+			}
+		}
+	}
+	c.R.Floor(rule, "calls that decode character references in package html", n, 3)
+}
+
+func calleeShort(info *types.Info, call *ast.CallExpr) string {
+	n := calleeName(info, call)
+	if i := strings.LastIndex(n, "."); i >= 0 {
+		return n[i+1:]
+	}
+	return n
+}
+
+// R03.26: a comment that is dropped behind the pre start tag does not hand its newline to the parser's first-newline rule.
+func (c *Ctx) r0326(pk *packages.Package, fd *ast.FuncDecl) {
+	const rule = "R03.26"
+	c.R.Rule(rule, "HTML §13.2.6.4.7: a start tag pre (listing, textarea) makes the parser ignore a U+000A that comes next. In `<pre><!--c-->\\nfoo</pre>` the newline follows the comment and is part of the text; when the comment is dropped it follows the start tag and is lost. In html.(*Minifier).Minify, case html.CommentToken, every path through the case that writes nothing (no call that takes the writer) passes a test of a flag that is assigned where the Pre start tag is handled (the branch `t.Hash == Pre`), or of a local copied from such a flag; the search tracks the constants assigned to boolean locals")
+	info := pk.TypesInfo
+	g := c.graph(pk, fd)
+	// the flags of the pre start tag
+	flags := map[types.Object]bool{}
+	ast.Inspect(fd.Body, func(z ast.Node) bool {
+		ifs, ok := z.(*ast.IfStmt)
+		if !ok {
+			return true
+		}
+		be, ok := ast.Unparen(ifs.Cond).(*ast.BinaryExpr)
+		if !ok || be.Op != token.EQL || !(usesObj(info, be.Y, load.Mod+"/html.Pre") || usesObj(info, be.X, load.Mod+"/html.Pre")) {
+			return true
+		}
+		for _, st := range ifs.Body.List {
+			if as, ok := st.(*ast.AssignStmt); ok {
+				for _, l := range as.Lhs {
+					if id, ok := l.(*ast.Ident); ok && info.Uses[id] != nil && isBoolType(info.TypeOf(id)) {
+						flags[info.Uses[id]] = true
+					}
+				}
+			}
+		}
+		return true
+	})
+	// copies: x := flag
+	for changed := true; changed; {
+		changed = false
+		ast.Inspect(fd.Body, func(z ast.Node) bool {
+			as, ok := z.(*ast.AssignStmt)
+			if !ok || len(as.Lhs) != len(as.Rhs) {
+				return true
+			}
+			for i, l := range as.Lhs {
+				lid, ok := l.(*ast.Ident)
+				rid, ok2 := ast.Unparen(as.Rhs[i]).(*ast.Ident)
+				if !ok || !ok2 || !flags[info.Uses[rid]] {
+					continue
+				}
+				o := info.Defs[lid]
+				if o == nil {
+					o = info.Uses[lid]
+				}
+				if o != nil && !flags[o] {
+					flags[o] = true
+					changed = true
+				}
+			}
+			return true
+		})
+	}
+	var clause *ast.CaseClause
+	ast.Inspect(fd.Body, func(z ast.Node) bool {
+		cc, ok := z.(*ast.CaseClause)
+		if ok && clause == nil && len(cc.List) == 1 && usesObj(info, cc.List[0], load.ParseMod+"/html.CommentToken") {
+			clause = cc
+		}
+		return clause == nil
+	})
+	if clause == nil || len(clause.Body) == 0 {
+		c.R.Unres(rule, "html.Minifier.Minify/case html.CommentToken", c.pos(fd), "case not found")
+		return
+	}
+	var wobj types.Object
+	for _, f := range fd.Type.Params.List {
+		for _, nm := range f.Names {
+			if types.TypeString(info.TypeOf(f.Type), nil) == "io.Writer" {
+				wobj = info.Defs[nm]
+			}
+		}
+	}
+	inClause := func(a ast.Node) bool { return a != nil && clause.Pos() <= a.Pos() && a.End() <= clause.End() }
+	var from *flow.Node
+	for _, y := range g.Nodes {
+		a := y.Ast()
+		if !inClause(a) || a.Pos() < clause.Body[0].Pos() || (y.Kind != flow.KStmt && y.Kind != flow.KCond) {
+			continue
+		}
+		if from == nil || a.Pos() < from.Ast().Pos() {
+			from = y
+		}
+	}
+	if from == nil || wobj == nil {
+		c.R.Unres(rule, "html.Minifier.Minify/case html.CommentToken", c.pos(clause), "entry of the case or the writer parameter not found")
+		return
+	}
+	writes := func(q *flow.Node) bool {
+		a := q.Ast()
+		if a == nil || q.Kind != flow.KStmt && q.Kind != flow.KCond {
+			return false
+		}
+		hit := false
+		ast.Inspect(a, func(z ast.Node) bool {
+			if ce, ok := z.(*ast.CallExpr); ok && mentionsObject(info, ce, wobj) {
+				hit = true
+			}
+			return !hit
+		})
+		return hit
+	}
+	asks := func(q *flow.Node) bool {
+		if q.Kind != flow.KCond {
+			return false
+		}
+		var whole ast.Node = q.Expr
+		for x := c.P.Parent(q.Expr); x != nil; x = c.P.Parent(x) {
+			if ifs, ok := x.(*ast.IfStmt); ok {
+				if ifs.Cond.Pos() <= q.Expr.Pos() && q.Expr.End() <= ifs.Cond.End() {
+					whole = ifs.Cond
+				}
+				break
+			}
+			if _, ok := x.(ast.Stmt); ok {
+				break
+			}
+		}
+		for o := range flags {
+			if mentionsObject(info, whole, o) {
+				return true
+			}
+		}
+		return false
+	}
+	p := g.Path(flow.Search{From: []*flow.Node{from}, IncludeFrom: true, Track: true,
+		Goal:  func(q *flow.Node) bool { a := q.Ast(); return q.Kind == flow.KExit || a != nil && !inClause(a) },
+		Avoid: func(q *flow.Node) bool { return writes(q) || asks(q) }})
+	var names []string
+	for o := range flags {
+		names = append(names, o.Name())
+	}
+	sort.Strings(names)
+	c.R.Check(p == nil && len(flags) > 0, rule, "html.Minifier.Minify/case html.CommentToken/a dropped comment asks whether it follows the pre start tag", c.pos(clause), "every path that writes nothing tests one of "+strings.Join(names, ", "),
+		"a comment is dropped without a look at the pre start tag in front of it: "+pathStr(c, g, p)+" — `<pre><!--c-->\\nfoo</pre>` → `<pre>\\nfoo</pre>`, whose first newline the parser ignores (the text loses a line break)")
 }
